@@ -79,15 +79,6 @@ theorem decodeOffsetValueV3_runs (o le ts : Int) (md : Option Bytes) (rest : Byt
   exact (readI64_runs o _ ho).bind <| (readI32_runs le _ hle).bind <| (readString_runs md _ hm).bind <|
     (readI64_runs ts _ hts).bind <| Runs.pure _ _
 
-theorem inRange2_of_01 {x : Int} (h : x = 0 ∨ x = 1) : InRange 2 x := by
-  rcases h with h | h <;> subst h <;> (unfold InRange; decide)
-
-theorem inRange2_of_013 {x : Int} (h : x = 0 ∨ x = 1 ∨ x = 3) : InRange 2 x := by
-  rcases h with h | h | h <;> subst h <;> (unfold InRange; decide)
-
-theorem inRange2_of_0123 {x : Int} (h : x = 0 ∨ x = 1 ∨ x = 2 ∨ x = 3) : InRange 2 x := by
-  rcases h with h | h | h | h <;> subst h <;> (unfold InRange; decide)
-
 theorem encValue_length_ne (m : OffsetCommit) (rest : Bytes) : (m.encValue ++ rest).length ≠ 0 := by
   simp only [OffsetCommit.encValue, List.length_append, encI16_length]
   omega
